@@ -156,7 +156,13 @@ def cases(seed, tier, shard, nshards):
             k += 1
             m = 'Wq%dx' % k
             raw = r.choice([x for x in VERB_RAW if ']' not in x and '&' not in x] + ['M<b>x</b>', '<script>M</script>']).replace('M', m)
-            d['c'].append({'t': 'raw', 'src': 'Wq%dx \\cite[%s]{zk1} Wq%dx' % (k + 100, raw, k + 200), 'expect': raw, 'marker': m})
+            rsrc = raw
+            if r.random() < 0.3:
+                # characters written as commands with a character of their own (\&, \textless): a template that prints the items of
+                # the note one by one prints them too
+                rsrc, raw = r.choice([('M\\&lt;b\\&gt;', 'M&lt;b&gt;'), ('M\\&\\#60;i', 'M&#60;i'), ('\\textless{}M\\textgreater{}', '<M>'), ('M\\&amp;', 'M&amp;')])
+                rsrc, raw = rsrc.replace('M', m), raw.replace('M', m)
+            d['c'].append({'t': 'raw', 'src': 'Wq%dx \\cite[%s]{zk1} Wq%dx' % (k + 100, rsrc, k + 200), 'expect': raw, 'marker': m})
             suffix = '\n\\begin{thebibliography}{9}\\bibitem{zk1} BibA1z\\end{thebibliography}\n'
         setup_ = r.choice(SETUPS)
         src = docs.latex(d, extra_preamble=pre, body_suffix=suffix)
